@@ -90,6 +90,8 @@ func sessAlphabet(offline, purge time.Duration) []sEvent {
 		sEvent{Kind: "arp", MAC: mC1, MAC2: mC1, IP: iA}, sEvent{Kind: "arp", MAC: mC1, MAC2: mC1, IP: iB}, sEvent{Kind: "arp", MAC: mC2, MAC2: mC2, IP: iA},
 		sEvent{Kind: "arp", MAC: mC1, MAC2: mC2, IP: iB}, sEvent{Kind: "arp", MAC: mC1, MAC2: mC1, IP: iX}, sEvent{Kind: "arp", MAC: mC1, MAC2: mC1, IP: iZero},
 		sEvent{Kind: "arp", MAC: mOwn, MAC2: mOwn, IP: iA},
+		// a forged ARP packet of our own (ethernet source = this host, ARP sender = a client) and the converse
+		sEvent{Kind: "arp", MAC: mOwn, MAC2: mC1, IP: iA}, sEvent{Kind: "arp", MAC: mC1, MAC2: mOwn, IP: iB},
 		sEvent{Kind: "dhcpf", MAC: mC1},
 		sEvent{Kind: "dhcpupd", MAC: mC1, IP: iA}, sEvent{Kind: "dhcpupd", MAC: mC1, IP: iA, Name: "n1"}, sEvent{Kind: "dhcpupd", MAC: mC1, IP: iB, Name: "n1"}, sEvent{Kind: "dhcpupd", MAC: mC2, IP: iA}, sEvent{Kind: "dhcpupd", MAC: mC1, IP: iZero},
 		sEvent{Kind: "setoffer", MAC: mC1, IP: iA}, sEvent{Kind: "setoffer", MAC: mC1, IP: iB},
